@@ -157,7 +157,8 @@ def gen_spec(rng):
         delays.append({"expr": {"const": const, "terms": terms}, "out": outname, "tau": tau, "tau_kind": tk})
     return dict(times=times, E=E, states=states, algs=algs + outs, controls=controls, cins=cins, params=params,
                 aliases=aliases, nominal=nominal, modes=modes, history=history, path_vars=[], delays=delays,
-                dyn={"a": rng.choice([0.5, 1.0])}, hkind=hkind, own_grid_receiver=bool(recv))
+                dyn={"a": rng.choice([0.5, 1.0])}, hkind=hkind, own_grid_receiver=bool(recv),
+                equidistant=rng.random() < 0.5)  # problem-level flag; grids / history stamps here are NOT uniform
 
 
 # ---------------------------------------------------------------------------------------------
@@ -664,6 +665,7 @@ def run(c):
         "collocation grid or a control on a coarser own grid with nominal != 1, also through a negated alias) y = delay(const + sum coef*var, tau); tau in "
         "{0, < dt, = a step, > dt, longer than the history, parameter-dependent (per member), input-dependent (time varying)}; "
         "histories none / one point / full / partial / different stamps per variable / NaN gaps; non-uniform grids, t0 != 0, "
+        "problem-level `equidistant` flag True/False; "
         "E <= 2.  simulation: generated .mo models (two delays, one through a negated alias, tau = 0, < dt, integer and "
         "non-integer multiples of dt, parameter product k*tau), 4-9 steps with a changing input.  distinct = (stream, tau kind, "
         "history kind, complete/incomplete, mode, sign, own grid, E, t0) tuples"
@@ -702,7 +704,11 @@ def run(c):
                     keep[v] = {"times": h["times"][-1:], "values": h["values"][-1:]}
             keep = {v: h for v, h in keep.items() if not any(math.isnan(q) for q in h["values"][-2:])}
             spec["history"] = [keep]
-        batch.append(opt_instance(c, spec, rng, solve=solve))
+        try:
+            batch.append(opt_instance(c, spec, rng, solve=solve))
+        except Exception as e:  # the implementation rejects a valid delay problem
+            c.fail("transcribe()/optimize() of a problem with delayed feedback raised %s" % type(e).__name__,
+                   {"spec": spec}, str(e)[:300])
         if len(batch) >= 10:
             run_opt_batch(c, batch)
             batch = []
